@@ -52,6 +52,7 @@ def run(ctx, rep):
     datagram_limit(prog, rep, "R4-reader-size-limit", "libtw2_net::protocol")
     datagram_limit(prog, rep, "R4-reader-size-limit", "libtw2_net::protocol7")
     close_reason_clamp(prog, rep)
+    chunk_resend_flag(prog, rep)
 
 
 def header_pair(prog, rep, mod, up, pk):
@@ -490,3 +491,48 @@ def close_reason_clamp(prog, rep):
                    "the reason is cut at %s bytes but CTRLMSG_CLOSE_REASON_LENGTH is %s: a maximal reason is truncated (and warned about)" % (k, lim), b.loc(ln))
     if len(vals) == 2:
         rep.ob(rule, "0.6 and 0.7 agree", len(set(vals.values())) == 1, "both readers clamp at %s" % sorted(set(vals.values())))
+
+
+def chunk_resend_flag(prog, rep):
+    """R6: the chunk iterator reports a vital chunk's resend flag as `header.flags & CHUNKFLAG_RESEND != 0` (the writer sets
+    that bit for retransmissions)"""
+    from ..bits import BitEval, Unsupported
+    rule = "R6-chunk-resend-flag"
+    be = BitEval(prog)
+    for mod in ("libtw2_net::protocol", "libtw2_net::protocol7"):
+        tag = mod.split("::")[-1]
+        b = prog.one(mod + "::ChunksIter::next_warn")
+        ir = IR(b)
+        flag = prog.constv(mod + "::CHUNKFLAG_RESEND")
+        found = False
+        ok = False
+        for bi, t in b.calls():
+            if (t.get("callee") or "") != "std::option::Option::map":
+                continue
+            e = ir.call_expr(bi, t)
+            cl = [x for x in walk(e) if isinstance(x, tuple) and x and x[0] == "agg" and x[1] == "closure"]
+            if not cl:
+                continue
+            try:
+                ce, rb = be.ret_expr(cl[0][2])
+            except Unsupported:
+                continue
+            if ce[0] == "agg" and len(ce[4]) == 2:
+                found = True
+                second = ce[4][1][1]
+                while second[0] in ("deref", "ref"):
+                    second = second[2] if second[0] == "ref" else second[1]
+                # the closure captures the precomputed bool or computes it itself; look through a captured upvar
+                txt = show(strip_sites(second))
+                cands = [second]
+                for cap in cl[0][4]:
+                    cands.append(cap[1])
+                for c in cands:
+                    while c[0] in ("deref", "ref"):
+                        c = c[2] if c[0] == "ref" else c[1]
+                    if c[0] == "bin" and c[1] == "Ne" and c[3][0] == "c" and c[3][1] == 0 and c[2][0] == "bin" and c[2][1] == "BitAnd" \
+                            and c[2][3][0] == "c" and c[2][3][1] == flag:
+                        ok = True
+        rep.ob(rule, "%s | resend flag" % tag, found and ok,
+               "vital = sequence.map(|s| (s, flags & CHUNKFLAG_RESEND != 0))" if found and ok else
+               "the resend flag of a delivered vital chunk is not `flags & CHUNKFLAG_RESEND != 0`", b.loc())
